@@ -142,7 +142,19 @@ def run_shard(desc):
         try:
             msg = Message.unpack(2, memoryview(body), neg)  # a memoryview, as Connection.reader hands the body over
             collection = msg if getattr(msg, 'IS_EOR', False) else msg.data
-            text = Response.JSON(json_version).update(nb, 'receive', collection, b'', b'', neg)
+            if i % 4 == 3:
+                # the non-default 'exabgp.api.compact' encoding (bare prefix strings for NLRI without qualifiers)
+                from exabgp.environment import getenv
+
+                env = getenv()
+                env.api.compact = True
+                try:
+                    text = Response.JSON(json_version).update(nb, 'receive', collection, b'', b'', neg)
+                finally:
+                    env.api.compact = False
+                res.count('json-compact-encoding')
+            else:
+                text = Response.JSON(json_version).update(nb, 'receive', collection, b'', b'', neg)
         except Notify as n:
             res.violation(f'C02/refuses-wellformed:{n.code}/{n.subcode}:{kind}', f'well-formed UPDATE refused with {n.code}/{n.subcode}: {str(n)[:120]}', wit, cls)
             continue
